@@ -1,10 +1,14 @@
 #!/bin/bash
-# Offline setup: warm the Go build cache for the simulation engines.
+# Offline setup: generate the runtime build overlay from the installed GOROOT and warm the Go build cache for the
+# simulation engines (plain and race builds).
 set -e
-export GOFLAGS=-mod=mod GOPROXY=off GOSUMDB=off GOTOOLCHAIN=local CGO_ENABLED=0
-cd "$(dirname "$0")/sim"
-cp /repo/go.sum go.sum
+export GOFLAGS=-mod=mod GOPROXY=off GOSUMDB=off GOTOOLCHAIN=local
+cd "$(dirname "$0")"
+./overlay/gen.sh
 d=$(mktemp -d)
-go1.26.8 test -c -tags verif -o "$d/sim.test" .
-rm -rf "$d"
+trap 'rm -rf "$d"' EXIT
+sed -e "s#=> /repo#=> /repo#" -e "s#=> ../simnats#=> $(pwd)/simnats#" sim/go.mod > "$d/go.mod"
+cp /repo/go.sum "$d/go.sum"
+(cd sim && CGO_ENABLED=0 go1.26.8 test -c -tags verif -overlay ../overlay/overlay.json -modfile "$d/go.mod" -o "$d/sim.test" .)
+(cd sim && CGO_ENABLED=1 go1.26.8 test -c -race -tags verif -overlay ../overlay/overlay.json -modfile "$d/go.mod" -o "$d/simrace.test" .)
 echo setup ok
